@@ -14,8 +14,9 @@ def main():
     tier = sys.argv[6] if len(sys.argv) > 6 else "quick"
     dst = os.path.join("/verif/seeded", sid)
     os.makedirs(dst, exist_ok=True)
-    shutil.copy(os.path.join(wt, "patch.diff"), os.path.join(dst, "patch.diff"))
-    shutil.copy(os.path.join(wt, demo_rel), os.path.join(dst, os.path.basename(demo_rel)))
+    if os.path.exists(os.path.join(wt, "patch.diff")):      # otherwise: re-run from what is already kept under seeded/<id>/
+        shutil.copy(os.path.join(wt, "patch.diff"), os.path.join(dst, "patch.diff"))
+        shutil.copy(os.path.join(wt, demo_rel), os.path.join(dst, os.path.basename(demo_rel)))
     if os.path.exists(os.path.join(wt, "NOTE.md")):
         shutil.copy(os.path.join(wt, "NOTE.md"), os.path.join(dst, "NOTE.md"))
     # independent confirmation in a fresh scratch worktree of /repo's HEAD
